@@ -263,6 +263,8 @@ func main() {
 			mk("tcp/cap64KiB", "tcp", 64<<10, false, base, 1, 1),
 			mk("tcp/cap64B", "tcp", 64, false, base, 1, 1),
 			mk("tcp/cap64B/stalls", "tcp", 64, false, stall, 1, 1),
+			mk("ws/cap64KiB", "ws", 64<<10, false, base, 1, 1),
+			mk("ws/cap64B", "ws", 64, false, base, 1, 1),
 			mk("inproc/2senders", "inproc", 0, true, base, -1, 1),
 			mk("tcp/cap64B/2senders", "tcp", 64, true, base, -1, 1),
 		},
